@@ -1236,14 +1236,30 @@ def loop_fragment_cases(rnd, n):
             elif rnd.random() < 0.4:
                 # an operation on a whole register: one operation per bit (Lang/BroadcastProofs.v)
                 c = rnd.random()
+                def reg(r, size):
+                    """the whole register, or a slice of it with literal ends"""
+                    z = rnd.random()
+                    if z < 0.55:
+                        return r, size
+                    a = rnd.randrange(size)
+                    b = rnd.randint(a, size - 1)
+                    if z < 0.7:
+                        return "%s[%d:]" % (r, a), size - a
+                    if z < 0.8:
+                        return "%s[:%d]" % (r, b), b + 1
+                    return "%s[%d:%d]" % (r, a, b), b - a + 1
                 if c < 0.3:
-                    L.append("%s q;" % rnd.choice(g1))
+                    L.append("%s %s;" % (rnd.choice(g1), reg("q", nq)[0]))
                 elif c < 0.45:
                     L.append("%s(%s) q;" % (rnd.choice(gp), rnd.choice(["0.5", "2"])))
                 elif c < 0.6:
-                    L.append("reset q;")
+                    L.append("reset %s;" % reg("q", nq)[0])
                 elif c < 0.8:
                     L.append("barrier q;" if rnd.random() < 0.6 else "barrier q[%d], q[%d];" % tuple(rnd.sample(range(nq), 2)))
+                elif rnd.random() < 0.5:
+                    k = rnd.randint(1, min(nq, nc))
+                    a, b = rnd.randint(0, nq - k), rnd.randint(0, nc - k)
+                    L.append("c[%d:%d] = measure q[%d:%d];" % (b, b + k - 1, a, a + k - 1))
                 elif nq == nc or bad:
                     L.append("c = measure q;")
                 else:
@@ -1259,8 +1275,20 @@ def loop_fragment_cases(rnd, n):
                 else:
                     x, y = rnd.sample(range(nq), 2)
                     L.append("%s @ %s q[%d], q[%d];" % (mods, rnd.choice(g2), x, y))
+            elif rnd.random() < 0.3:
+                # any library gate (the operation tables lower it: cnot -> cx, u3 -> rz rx ...), possibly modified
+                name = rnd.choice([g for g in sorted(LIB) if g not in ("xx_plus_yy", "xy", "ms")])
+                npar, nqb = LIB[name]
+                if nqb <= nq:
+                    pre = rnd.choice(["", "", "inv @ ", "pow(2) @ "])
+                    args = "(%s)" % ", ".join(rnd.choice(PEXPR) for _ in range(npar)) if npar else ""
+                    L.append("%s%s%s %s;" % (pre, name, args, ", ".join("q[%d]" % x for x in rnd.sample(range(nq), nqb))))
             else:
                 L.append(op(None, 0, -1))
+        if rnd.random() < 0.25:
+            # a register declared without a size is a register of size 1
+            L.insert(2, "qubit a;")
+            L.append(rnd.choice(["h a;", "x a[0];", "cx a, q[0];", "cx q[1], a[0];", "reset a;", "barrier a;"]))
         out.append(H3 + "\n".join(L) + "\n")
     return out
 
